@@ -131,6 +131,8 @@ pub trait CtxCommon: Send + Sync {
     /// (base_nonce, exporter_secret) as stored in the context, through the hook
     fn secrets(&self) -> Option<(Vec<u8>, Vec<u8>)>;
     fn drop_scan(self: Box<Self>, needles: &[&[u8]]) -> ScanReport;
+    /// Offsets at which each needle is found in the live context's own storage (no drop)
+    fn peek(&self, needles: &[&[u8]]) -> (usize, Vec<Vec<usize>>);
 }
 
 pub trait CtxS: CtxCommon {
@@ -191,6 +193,12 @@ macro_rules! ctx_common {
             }
             fn drop_scan(self: Box<Self>, needles: &[&[u8]]) -> ScanReport {
                 scan_drop::<Self>(*self, needles)
+            }
+            fn peek(&self, needles: &[&[u8]]) -> (usize, Vec<Vec<usize>>) {
+                let n = std::mem::size_of::<Self>();
+                let p = self as *const Self as *const u8;
+                let snap: Vec<u8> = (0..n).map(|i| unsafe { std::ptr::read_volatile(p.add(i)) }).collect();
+                (n, needles.iter().map(|nd| find_all(&snap, nd)).collect())
             }
         }
     };
@@ -425,6 +433,13 @@ pub trait SuiteOps: Send + Sync {
         rng: &mut ScriptRng,
     ) -> R<(Vec<u8>, Box<dyn CtxS>)>;
     fn setup_r(&self, m: &ModeArgs, skr: &[u8], enc: &[u8], info: &[u8]) -> R<Box<dyn CtxR>>;
+    /// Deserializes the receiver's key material ONCE, then `threads` threads concurrently run
+    /// setup_receiver + a 32-byte export through shared references to those key objects.
+    /// Returns the per-thread results followed by one more result computed afterwards on one thread.
+    fn setup_r_par(&self, m: &ModeArgs, skr: &[u8], enc: &[u8], info: &[u8], threads: usize) -> R<Vec<Result<Vec<u8>, HpkeError>>>;
+    /// Same for the sender: one shared recipient public key (and identity key pair), every thread with its
+    /// own copy of the same scripted RNG bytes. Result per thread: enc || export(32)
+    fn setup_s_par(&self, m: &ModeArgs, pkr: &[u8], info: &[u8], rng: &[u8], threads: usize) -> R<Vec<Result<Vec<u8>, HpkeError>>>;
     fn raw_s(&self, key: &[u8], bn: &[u8], es: &[u8]) -> Option<Box<dyn CtxS>>;
     fn raw_r(&self, key: &[u8], bn: &[u8], es: &[u8]) -> Option<Box<dyn CtxR>>;
     /// None: that API form is not compiled in. On failure of the in-place form the buffer is
@@ -461,6 +476,9 @@ impl<A: Aead + 'static, K: Kdf + 'static, M: Kem + 'static> SuiteOps for Sx<A, K
 where
     AeadCtxS<A, K, M>: Send + Sync,
     AeadCtxR<A, K, M>: Send + Sync,
+    M::PublicKey: Send + Sync,
+    M::PrivateKey: Send + Sync,
+    M::EncappedKey: Send + Sync,
 {
     fn ids(&self) -> (u16, u16, u16) {
         (M::KEM_ID, K::KDF_ID, A::AEAD_ID)
@@ -486,6 +504,58 @@ where
         let enc = at(M::EncappedKey::from_bytes(enc), "enc")?;
         let ctx = at(hpke::setup_receiver::<A, K, M>(&mode, &skr, &enc, info), "")?;
         Ok(Box::new(ctx))
+    }
+    fn setup_r_par(&self, m: &ModeArgs, skr: &[u8], enc: &[u8], info: &[u8], threads: usize) -> R<Vec<Result<Vec<u8>, HpkeError>>> {
+        let mode = mode_r::<M>(m)?;
+        let skr = at(M::PrivateKey::from_bytes(skr), "skr")?;
+        let enc = at(M::EncappedKey::from_bytes(enc), "enc")?;
+        let one = |mode: &OpModeR<M>, skr: &M::PrivateKey, enc: &M::EncappedKey| -> Result<Vec<u8>, HpkeError> {
+            let ctx = hpke::setup_receiver::<A, K, M>(mode, skr, enc, info)?;
+            let mut out = vec![0u8; 32];
+            ctx.export(b"par", &mut out)?;
+            Ok(out)
+        };
+        let barrier = std::sync::Barrier::new(threads);
+        let mut res: Vec<Result<Vec<u8>, HpkeError>> = std::thread::scope(|s| {
+            let hs: Vec<_> = (0..threads)
+                .map(|_| {
+                    s.spawn(|| {
+                        barrier.wait();
+                        one(&mode, &skr, &enc)
+                    })
+                })
+                .collect();
+            hs.into_iter().map(|h| h.join().expect("setup thread panicked")).collect()
+        });
+        res.push(one(&mode, &skr, &enc));
+        Ok(res)
+    }
+    fn setup_s_par(&self, m: &ModeArgs, pkr: &[u8], info: &[u8], rng: &[u8], threads: usize) -> R<Vec<Result<Vec<u8>, HpkeError>>> {
+        let mode = mode_s::<M>(m)?;
+        let pkr = at(M::PublicKey::from_bytes(pkr), "pkr")?;
+        let one = |mode: &OpModeS<M>, pkr: &M::PublicKey| -> Result<Vec<u8>, HpkeError> {
+            let mut r = ScriptRng::new(rng.to_vec());
+            let (enc, ctx) = hpke::setup_sender::<A, K, M, _>(mode, pkr, info, &mut r)?;
+            let mut out = vec![0u8; 32];
+            ctx.export(b"par", &mut out)?;
+            let mut v = enc.to_bytes().to_vec();
+            v.extend_from_slice(&out);
+            Ok(v)
+        };
+        let barrier = std::sync::Barrier::new(threads);
+        let mut res: Vec<Result<Vec<u8>, HpkeError>> = std::thread::scope(|s| {
+            let hs: Vec<_> = (0..threads)
+                .map(|_| {
+                    s.spawn(|| {
+                        barrier.wait();
+                        one(&mode, &pkr)
+                    })
+                })
+                .collect();
+            hs.into_iter().map(|h| h.join().expect("setup thread panicked")).collect()
+        });
+        res.push(one(&mode, &pkr));
+        Ok(res)
     }
     #[allow(unused_variables)]
     fn raw_s(&self, key: &[u8], bn: &[u8], es: &[u8]) -> Option<Box<dyn CtxS>> {
